@@ -217,7 +217,12 @@ def _divide(a, b):
         if bt.numerator_as_long() == 0:
             raise ZeroDivisionError("float division by zero")
     else:
-        if ctx().branch(bt == 0):
+        c = ctx()
+        if getattr(c, "nonzero_div", False):
+            # divisors are assumed non-zero (stated by the check that sets
+            # this): no fork, the exceptional path is outside the claim
+            c.add(bt != 0)
+        elif c.branch(bt == 0):
             raise ZeroDivisionError("float division by zero (symbolic)")
     return SReal(simp(to_real(a) / bt))
 
@@ -689,7 +694,8 @@ class Ctx(object):
     """One path."""
 
     def __init__(self, prefix, stats, feas_timeout_ms=10000, fork_minmax=False,
-                 logic=None, incr_timeout_ms=500, formal_cache=False):
+                 logic=None, incr_timeout_ms=500, formal_cache=False,
+                 nonzero_div=False):
         self.prefix = prefix
         self.stats = stats
         self.decisions = []
@@ -709,6 +715,7 @@ class Ctx(object):
         self.root_candidates = []
         self.root_defs = []
         self.formal_cache = formal_cache
+        self.nonzero_div = nonzero_div
         self.sign_cache = []      # (difference term, allowed signs)
         self.roots_used = 0
         self.formal = 0
